@@ -409,6 +409,22 @@ func runC20(c *Ctx) {
 					p := pats[r.Intn(len(pats))]
 					ctx := ctxs[r.Intn(len(ctxs))]
 					st = c20Site{Text: ctx(p.Exp(a, b), n), Expect: p.Exp2, Label: p.Label}
+					if r.Chance(1, 6) {
+						// the expression as a surplus value of an assignment / declaration with more values than targets: that
+						// statement is itself an instance of check 7 / 8, and the pattern inside the surplus value still counts
+						exp := map[int]int{}
+						for k, v := range p.Exp2 {
+							exp[k] = v
+						}
+						pad := strings.Repeat("2, ", r.Intn(2))
+						if r.Bool() {
+							exp[7] = 1
+							st = c20Site{Text: fmt.Sprintf("%s = 1, %s%s", cc, pad, p.Exp(a, b)), Expect: exp, Label: p.Label + "|as-surplus-assignment-value"}
+						} else {
+							exp[8] = 1
+							st = c20Site{Text: fmt.Sprintf("local sv%d = 1, %s%s", n, pad, p.Exp(a, b)), Expect: exp, Label: p.Label + "|as-surplus-local-value"}
+						}
+					}
 				} else {
 					ss := c20StatementSites(r, n)
 					st = ss[r.Intn(len(ss))]
